@@ -154,20 +154,25 @@ class reusable_storage_mtsafe: public reusable_storage {
 public:
     void *alloc(std::size_t sz)  {
         void *p;
-        if (_busy.exchange(true, std::memory_order_relaxed)) {
+        //acquire: the previous user's accesses to the block happen before ours
+        bool fallback = _busy.exchange(true, std::memory_order_acquire);
+        if (fallback) {
             p = ::operator new(sz+sizeof(reusable_storage_mtsafe **));
         } else {
             p = reusable_storage::alloc(sz+sizeof(reusable_storage_mtsafe **));
         }
         auto s = reinterpret_cast<reusable_storage_mtsafe **>(reinterpret_cast<char *>(p) + sz);
-        *s = this;
+        //a fallback block is marked by nullptr, so dealloc() doesn't need to look into
+        //the storage, which can be just being modified by the thread which owns it
+        *s = fallback?nullptr:this;
         return p;
     }
     static void dealloc(void *ptr, std::size_t sz) {
         auto s = reinterpret_cast<reusable_storage_mtsafe **>(reinterpret_cast<char *>(ptr) + sz);
         auto me = *s;
-        if (ptr == me->_ptr) {
-            me->_busy.store(false, std::memory_order_relaxed);
+        if (me) {
+            //release: our accesses to the block happen before the next user's
+            me->_busy.store(false, std::memory_order_release);
         } else {
             ::operator delete(ptr);
         }
